@@ -146,6 +146,16 @@ func isBlank(p []byte) bool {
 // execC13 runs one (stream, schedule, form) simulation and checks the clauses.
 func execC13(c *Ctx, s *stream, form int, sch *ReadSched, stopAt int, render bool) *Violation {
 	c.Eval()
+	switch {
+	case sch.ByteReader:
+		c.C["probe.reader_kind_bytereader"]++
+	case sch.Seeker == 1:
+		c.C["probe.reader_kind_working_seeker"]++
+	case sch.Seeker == 2:
+		c.C["probe.reader_kind_failing_seeker"]++
+	default:
+		c.C["probe.reader_kind_plain"]++
+	}
 	r := NewSimReader(c, "rd", s.data, sch)
 	rd := r.AsReader()
 	n := len(s.docs)
